@@ -24,7 +24,7 @@ def run_case(case: dict) -> dict:
         root = d / "root"
         root.mkdir()
         data, lines = annmodel.render_body(st, case["body"], case["eol"], case["final_nl"], case["bom"],
-                                           case["sheb_idx"], case["tws_line"], case.get("quote", False), case.get("exotic", False))
+                                           case["sheb_idx"], case["tws_line"], case.get("quote", False), case.get("exotic", False), case.get("longfirst", 0))
         f = root / "body"
         f.write_bytes(data)
         opts = ["--copyright", "New Holder", "--license", "MIT", "--year", "2024", "--style", st["name"]]
@@ -32,7 +32,7 @@ def run_case(case: dict) -> dict:
             opts.append("--no-replace")
         if case.get("multi_line") and st["hasMulti"]:
             opts.append("--multi-line")
-        r = annmodel.annotate(root, [f], opts)
+        r = annmodel.annotate(root, [f], opts, locale_c=bool(case.get("locale_c")))
         after = f.read_bytes()
         if r["exc"]:
             ev["crash"] = r["exc"][-500:]
@@ -87,10 +87,10 @@ def run(ctx: core.Ctx) -> int:
             n = len(cases)
             cases.append({"tid": n + 1, "style": st, "sheb_idx": si, "body": g["body"], "replace": g["replace"],
                           "eol": eols[n % 3], "final_nl": n % 4 != 0, "bom": n % 7 == 0,
-                          "tws_line": (n % 5) if n % 2 else 0, "multi_line": n % 6 == 0, "quote": n % 3 == 1, "exotic": n % 4 == 3,
+                          "tws_line": (n % 5) if n % 2 else 0, "multi_line": n % 6 == 0, "quote": n % 3 == 1, "exotic": n % 4 == 3, "locale_c": n % 40 == 7, "longfirst": [0, 0, 0, 0, 4095, 0, 0, 0, 5000, 0, 0][n % 11],
                           "label": json.dumps({"style": st["name"], "class": g["st"], "replace": g["replace"],
                                                "kinds": [ln["k"] for ln in g["body"]], "eol": repr(eols[n % 3]),
-                                               "bom": n % 7 == 0, "finalNL": n % 4 != 0, "quote": n % 3 == 1, "exotic": n % 4 == 3})})
+                                               "bom": n % 7 == 0, "finalNL": n % 4 != 0, "quote": n % 3 == 1, "exotic": n % 4 == 3, "locale": "C" if n % 40 == 7 else "", "longfirst": [0, 0, 0, 0, 4095, 0, 0, 0, 5000, 0, 0][n % 11]})})
     events = ctx.pmap(run_case, cases, chunksize=64)
     for ev in events[:: max(1, len(events) // 4)][:4]:
         ctx.samples.append({"case": json.loads(ev["label"]), "before": ev["text"]["before"], "after": ev["text"]["after"],
@@ -122,7 +122,7 @@ def replay(ctx: core.Ctx, path: str) -> int:
     lab = json.loads(ev["label"])
     st = next(s for s in annmodel.style_table() if s["name"] == lab["style"])
     case = {"tid": 1, "style": st, "sheb_idx": 0, "body": ev["pre"], "replace": ev["replace"], "eol": eval(lab["eol"]),
-            "final_nl": lab["finalNL"], "bom": lab["bom"], "tws_line": 0, "multi_line": False, "quote": bool(lab.get("quote")), "exotic": bool(lab.get("exotic")), "label": ev["label"]}
+            "final_nl": lab["finalNL"], "bom": lab["bom"], "tws_line": 0, "multi_line": False, "quote": bool(lab.get("quote")), "exotic": bool(lab.get("exotic")), "locale_c": lab.get("locale") == "C", "longfirst": lab.get("longfirst", 0), "label": ev["label"]}
     e = run_case(case)
     print(json.dumps(e["text"], indent=1))
     e.pop("text")
